@@ -5,6 +5,10 @@ import (
 	"strings"
 	"testing"
 
+	"go.mongodb.org/mongo-driver/bson"
+
+	"github.com/256dpi/lungo/mongokit"
+
 	"verifharness/internal/run"
 )
 
@@ -57,5 +61,93 @@ func TestAPILiteralReplay(t *testing.T) {
 		if strings.Join(got, "\n") != strings.Join(replies, "\n") {
 			t.Fatalf("key %d: literal replay differs\n%s\nvs\n%s", key, strings.Join(got, "\n"), strings.Join(replies, "\n"))
 		}
+	}
+}
+
+func issueSet(ns *mongokit.Collection) map[string]bool {
+	out := map[string]bool{}
+	for _, is := range indexIssues(ns) {
+		out[is.reason] = true
+	}
+	return out
+}
+
+// The C15 monitor reads the entries behind an index and recognises hand-made incoherent states.
+func TestIndexIssues(t *testing.T) {
+	mk := func() *mongokit.Collection {
+		ns := mongokit.NewCollection(true)
+		if _, err := ns.CreateIndex("", mongokit.IndexConfig{Key: &bson.D{{Key: "a", Value: int32(-1)}}}); err != nil {
+			t.Fatal(err)
+		}
+		if _, err := ns.CreateIndex("", mongokit.IndexConfig{Key: &bson.D{{Key: "b", Value: int32(1)}}, Unique: true,
+			Partial: &bson.D{{Key: "x", Value: bson.D{{Key: "$gt", Value: int32(0)}}}}}); err != nil {
+			t.Fatal(err)
+		}
+		for i, d := range []bson.D{
+			{{Key: "_id", Value: int32(1)}, {Key: "a", Value: bson.A{int32(1), int32(2)}}, {Key: "b", Value: int32(1)}, {Key: "x", Value: int32(1)}},
+			{{Key: "_id", Value: int32(2)}, {Key: "a", Value: int32(3)}, {Key: "b", Value: int32(1)}},
+			{{Key: "_id", Value: int32(3)}, {Key: "a", Value: bson.A{}}, {Key: "b", Value: int32(2)}, {Key: "x", Value: int64(5)}},
+		} {
+			d := d
+			if _, err := ns.Insert(&d); err != nil {
+				t.Fatalf("insert %d: %v", i, err)
+			}
+		}
+		return ns
+	}
+	ns := mk()
+	es, ok := indexEntries(ns.Indexes["a_-1"])
+	if !ok || len(es) != 4 {
+		t.Fatalf("entries of a_-1 not readable: ok=%v n=%d", ok, len(es))
+	}
+	if got := indexIssues(ns); len(got) != 0 {
+		t.Fatalf("coherent collection reported: %v", got)
+	}
+	// a document without its index entries
+	ns = mk()
+	ns.Documents.Add(&bson.D{{Key: "_id", Value: int32(9)}, {Key: "x", Value: int32(2)}})
+	if s := issueSet(ns); !s["missing-entry"] {
+		t.Fatalf("missing-entry not reported: %v", s)
+	}
+	// an entry for a document that is not in the collection
+	ns = mk()
+	ns.Indexes["a_-1"].Add(&bson.D{{Key: "_id", Value: int32(9)}, {Key: "a", Value: int32(2)}})
+	if s := issueSet(ns); !s["foreign-entry"] || !s["differs-from-rebuild"] {
+		t.Fatalf("foreign-entry not reported: %v", s)
+	}
+	// a stored document changed in place: its entries no longer are its keys
+	ns = mk()
+	(*ns.Documents.List[0])[1].Value = bson.A{int32(1), int32(7)}
+	if s := issueSet(ns); !s["stale-key"] || !s["missing-key"] {
+		t.Fatalf("stale-key/missing-key not reported: %v", s)
+	}
+	// a document moved into the partial filter in place
+	ns = mk()
+	*ns.Documents.List[1] = append(*ns.Documents.List[1], bson.E{Key: "x", Value: int32(3)})
+	if s := issueSet(ns); !s["missing-entry"] {
+		t.Fatalf("missing-entry (partial) not reported: %v", s)
+	}
+	// ... and out of it
+	ns = mk()
+	(*ns.Documents.List[0])[3].Value = int32(0)
+	if s := issueSet(ns); !s["outside-filter"] {
+		t.Fatalf("outside-filter not reported: %v", s)
+	}
+	// the position map
+	ns = mk()
+	ns.Documents.Index[ns.Documents.List[0]] = 2
+	if s := issueSet(ns); !s["set-index-stale"] {
+		t.Fatalf("set-index-stale not reported: %v", s)
+	}
+	// would-be collections: a swap is no duplicate, a collision is
+	ns = mk()
+	swap := writeItem{T: "updateMany", Q: bson.D{{Key: "x", Value: bson.D{{Key: "$gt", Value: int32(0)}}}},
+		U: bson.D{{Key: "$bit", Value: bson.D{{Key: "b", Value: bson.D{{Key: "xor", Value: int32(3)}}}}}}}
+	if d := spuriousDup(ns, swap); d == "" {
+		t.Fatalf("a key swap is taken for a duplicate")
+	}
+	coll := writeItem{T: "updateOne", Q: bson.D{{Key: "_id", Value: int32(2)}}, U: bson.D{{Key: "$set", Value: bson.D{{Key: "x", Value: int32(1)}}}}}
+	if d := spuriousDup(ns, coll); d != "" {
+		t.Fatalf("a move into the partial filter onto a taken key is not taken for a duplicate: %s", d)
 	}
 }
